@@ -640,6 +640,11 @@ class Extractor:
         self.out.append("/-- declaration (= drop) order of `SyncFuture`'s fields -/")
         self.out.append("def syncFutureFields : List String := [%s]\n" % ", ".join('"%s"' % f for f in fields))
         self.digest["facts"]["syncFutureFields"] = fields
+        # a hand-written Drop impl would run before any field is dropped and could release the queue early
+        custom_drop = any(names[k] == "impl" and "Drop" in names[k:k + 12] and "SyncFuture" in names[k:k + 14] for k in range(len(names)))
+        self.out.append("/-- does `SyncFuture` have a hand-written `Drop` impl (which would run before the fields are dropped)? -/")
+        self.out.append("def syncFutureCustomDrop : Bool := %s\n" % ("true" if custom_drop else "false"))
+        self.digest["facts"]["syncFutureCustomDrop"] = custom_drop
         # pipe constants
         toks = self.src.load("pipe.rs")
         names = [t[1] for t in toks]
